@@ -118,6 +118,24 @@ func (grw *GzipResponseWriter) Close() {
 	}
 }
 
+// Flush sends what has been written so far to the client. Without it the
+// flushes of the reverse proxy (streamed responses, server-sent events,
+// proxy.globalflushinterval) would end at this wrapper and the data would
+// stay in fabio until the upstream sends enough to fill the buffers or
+// finishes the response.
+func (grw *GzipResponseWriter) Flush() {
+	if grw.writer == nil {
+		// like the http server: the first flush sends the header
+		grw.WriteHeader(http.StatusOK)
+	}
+	if grw.gzipWriter != nil {
+		grw.gzipWriter.Flush()
+	}
+	if fl, ok := grw.ResponseWriter.(http.Flusher); ok {
+		fl.Flush()
+	}
+}
+
 func (grw *GzipResponseWriter) Hijack() (net.Conn, *bufio.ReadWriter, error) {
 	if hj, ok := grw.ResponseWriter.(http.Hijacker); ok {
 		return hj.Hijack()
